@@ -773,7 +773,11 @@ def featureOK (fs : List Feature) (f : Feature) : Bool :=
   | 1 => f.tags.all (·.val.ok) && (getTag f.tags kPoint).isNone && pathValid fs f &&
       (geomElems f).all (fun e => match e with
         | .ref id => id.typ == 0
-        | .ll _ => true)
+        | .ll _ => true) &&
+      -- the only list-valued tag is the geometry (any other list would have to fit the path's own encoding)
+      f.tags.all (fun t => match t.val with
+        | .list xs => t.key == kPath && xs == pathElems f
+        | _ => true)
   | 2 => f.tags.all (·.val.plain) && areaKept fs f &&
       f.polys.all fun p => match p with
         | .paths ids => !ids.isEmpty && ids.all fun id => id.typ == 1 && id.valid
@@ -800,10 +804,12 @@ def idsDistinct : List Feature → Bool
 
 /-- **the decidable domain of `compact_roundtrip`**: ids distinct, every feature kept by the builder's
 validation and representable, the string table holds every string of the source, the tables fit their
-fields.  (`!hasFidTag fs` is implied by `featureOK`; it is listed because it is the known finding class.) -/
+fields.  The three recorded finding classes are excluded explicitly (they are also implied by `featureOK`):
+an input is either in `Accepts`, or in one of `hasFidTag` / `hasPointMemberWithoutBlock` / `hasListTagOnNonPath`, or
+outside the property's domain (duplicate ids, invalid paths, …). -/
 def Accepts (strs : List Str) (fs : List Feature) : Bool :=
   idsDistinct fs && fs.all (featureOK fs) && !hasFidTag fs &&
   (fs.flatMap stringsOf).all (strs.contains ·) && decide (strs.length < 2 ^ 48) && decide ((nsTable fs).length ≤ 8192) &&
-  decide (fs.length < 2 ^ 48)
+  decide (fs.length < 2 ^ 48) && !hasPointMemberWithoutBlock fs && !hasListTagOnNonPath fs
 
 end B6.Model.CompactIndex
